@@ -44,9 +44,16 @@ func (b *Builder) AddWithSequence(key, value []byte, seqNum uint64) error {
 			string(key), string(b.lastKey))
 	}
 
+	// Make copies to avoid references to external data. A nil value marks a
+	// deletion, so an empty value must stay non-nil
+	var valueCopy []byte
+	if value != nil {
+		valueCopy = append([]byte{}, value...)
+	}
+
 	b.entries = append(b.entries, Entry{
-		Key:         append([]byte(nil), key...),   // Make copies to avoid references
-		Value:       append([]byte(nil), value...), // to external data
+		Key:         append([]byte(nil), key...),
+		Value:       valueCopy,
 		SequenceNum: seqNum,
 	})
 
